@@ -34,7 +34,7 @@ var targets = map[string][]string{
 	modPath + "/couchbase":           {"*"},
 	modPath + "/membership":          {"*"},
 	modPath + "/metadata":            {"*"},
-	modPath + "/kubernetes":          {"ha_membership.go"},
+	modPath + "/kubernetes":          {"ha_membership.go", "stateful_set_membership.go"},
 	modPath + "/servicediscovery":    {"service_discovery.go", "rpc_client.go", "rpc_server.go"},
 	modPath + "/helpers":             {"utils.go"},
 	"github.com/asaskevich/EventBus": {"event_bus.go"},
@@ -47,6 +47,11 @@ var importSwap = map[string][2]string{
 	"context":                    {"verif/vrt/vcontext", "context"},
 	"golang.org/x/sync/errgroup": {"verif/vrt/verrgroup", "errgroup"},
 	"net/rpc":                    {"verif/vrt/vrpc", "rpc"},
+}
+
+// per-file swaps (file base name -> import path -> shim): "os" is only replaced where the host name is read
+var fileImportSwap = map[string]map[string][2]string{
+	"stateful_set_membership.go": {"os": {"verif/vrt/vos", "os"}},
 }
 
 // struct types whose fields never get yield points (pure metrics)
@@ -306,7 +311,11 @@ func (in *inst) rewriteFile(f *ast.File) []byte {
 	// imports
 	for _, imp := range f.Imports {
 		p, _ := strconv.Unquote(imp.Path.Value)
-		if sw, ok := importSwap[p]; ok {
+		sw, ok := importSwap[p]
+		if fs, ok2 := fileImportSwap[filepath.Base(in.curFile)][p]; ok2 {
+			sw, ok = fs, true
+		}
+		if ok {
 			imp.Path.Value = strconv.Quote(sw[0])
 			if imp.Name == nil {
 				imp.Name = ast.NewIdent(sw[1])
